@@ -1,13 +1,15 @@
 //go:build verif
 
-package redis
+package vfdoubles
 
-// C19 cluster double: N RESP listeners on 127.0.0.1 sharing one slot table
-// with per-slot migrating/importing state. Part of the trusted base (DESIGN
-// §2.4). Data commands are logged, not interpreted; the only key-level state is
-// "this key has already been transferred to the importing node" (atDst), which
-// is what decides between serving and -ASK on a migrating slot, exactly like
-// key presence does in Redis (`getNodeByQuery`).
+// cluster.go — the C19 cluster double: N RESP listeners on 127.0.0.1 sharing one
+// slot table with per-slot migrating/importing state. Part of the trusted base
+// (DESIGN §2.4). Used by the cluster-client harness
+// (pkg/redis/client/cluster/vf_c19_test.go) and by the sender harness
+// (syncer/vf_c19_test.go). Data commands are logged, not interpreted; the only
+// key-level state is "this key has already been transferred to the importing
+// node" (atDst), which decides between serving and -ASK on a migrating slot
+// exactly like key presence does in Redis (`getNodeByQuery`).
 //
 // Redis rules transcribed (cluster.c getNodeByQuery, networking.c resetClient):
 //   * keys of one command in different slots            -> -CROSSSLOT
@@ -26,6 +28,8 @@ package redis
 //     importing slot: all keys present or all missing, else -TRYAGAIN).
 // Every request is processed atomically under one mutex; the order in which the
 // mutex is taken is the global order of the trace.
+// A node can be taken down (listener and connections closed): the slot table
+// may still name it (MOVED to an unreachable address).
 
 import (
 	"bufio"
@@ -38,7 +42,7 @@ import (
 	"time"
 )
 
-func vfcCrc16(b []byte) uint16 {
+func clusterCrc16(b []byte) uint16 {
 	var crc uint16
 	for _, c := range b {
 		crc ^= uint16(c) << 8
@@ -54,7 +58,7 @@ func vfcCrc16(b []byte) uint16 {
 }
 
 // independent HASH_SLOT
-func vfcSlot(k string) int {
+func ClusterSlot(k string) int {
 	b := []byte(k)
 	s := -1
 	for i, c := range b {
@@ -67,28 +71,28 @@ func vfcSlot(k string) int {
 		for e := s + 1; e < len(b); e++ {
 			if b[e] == '}' {
 				if e != s+1 {
-					return int(vfcCrc16(b[s+1:e]) % 16384)
+					return int(clusterCrc16(b[s+1:e]) % 16384)
 				}
 				break
 			}
 		}
 	}
-	return int(vfcCrc16(b) % 16384)
+	return int(clusterCrc16(b) % 16384)
 }
 
-type vfcMigEv struct {
+type MigEv struct {
 	Kind string // g setMigrating slot dst | k migrateKey key | f finish slot | v assign slot dst
 	Slot int
 	Dst  int
 	Key  string
 }
 
-type vfcSched struct {
+type Sched struct {
 	At int // fires before the At-th data request (0-based global counter) is processed
-	Ev vfcMigEv
+	Ev MigEv
 }
 
-type vfcExec struct {
+type ClusterExec struct {
 	Node   int
 	ID     int // command id (from the "#id" argument)
 	Keys   []string
@@ -98,7 +102,7 @@ type vfcExec struct {
 	Seg    int
 }
 
-type vfcDouble struct {
+type Cluster struct {
 	mu     sync.Mutex
 	n      int
 	lns    []net.Listener
@@ -110,24 +114,29 @@ type vfcDouble struct {
 
 	trace   []string
 	nodeLog [][]string
-	execs   []vfcExec
+	execs   []ClusterExec
 	seen    map[int]bool // command ids whose first arrival was processed
 	seg     int
 
 	reqCount int
-	sched    []vfcSched
+	sched    []Sched
 
-	parkOn  bool
-	parked  chan struct{}
+	parkOn   bool
+	parkSkip int // CLUSTER SLOTS requests still to be served before parking starts
+	parked   chan struct{}
+	down     map[int]bool // nodes taken down
+	arrivals map[int]int  // command id -> how many times a node processed it (any outcome)
+	connOf   map[net.Conn]int
 	closed  bool
 	conns   map[net.Conn]struct{}
 	wg      sync.WaitGroup
 	nServed int
 }
 
-func vfcNewDouble(n int, keys []string) (*vfcDouble, error) {
-	d := &vfcDouble{n: n, mig: map[int]int{}, atDst: map[string]bool{}, keyIdx: map[string]int{},
-		seen: map[int]bool{}, conns: map[net.Conn]struct{}{}}
+func NewCluster(n int, keys []string) (*Cluster, error) {
+	d := &Cluster{n: n, mig: map[int]int{}, atDst: map[string]bool{}, keyIdx: map[string]int{},
+		seen: map[int]bool{}, conns: map[net.Conn]struct{}{}, down: map[int]bool{}, arrivals: map[int]int{},
+		connOf: map[net.Conn]int{}}
 	for i, k := range keys {
 		d.keyIdx[k] = i
 	}
@@ -156,7 +165,13 @@ func vfcNewDouble(n int, keys []string) (*vfcDouble, error) {
 					c.Close()
 					return
 				}
+				if d.down[i] {
+					d.mu.Unlock()
+					c.Close()
+					continue
+				}
 				d.conns[c] = struct{}{}
+				d.connOf[c] = i
 				d.mu.Unlock()
 				d.wg.Add(1)
 				go func() {
@@ -164,6 +179,7 @@ func vfcNewDouble(n int, keys []string) (*vfcDouble, error) {
 					d.serve(i, c)
 					d.mu.Lock()
 					delete(d.conns, c)
+					delete(d.connOf, c)
 					d.mu.Unlock()
 					c.Close()
 				}()
@@ -173,7 +189,7 @@ func vfcNewDouble(n int, keys []string) (*vfcDouble, error) {
 	return d, nil
 }
 
-func (d *vfcDouble) Close() {
+func (d *Cluster) Close() {
 	d.mu.Lock()
 	d.closed = true
 	if d.parked != nil {
@@ -190,7 +206,7 @@ func (d *vfcDouble) Close() {
 	d.wg.Wait()
 }
 
-func (d *vfcDouble) nodeOfAddr(a string) int {
+func (d *Cluster) NodeOfAddr(a string) int {
 	for i, x := range d.addrs {
 		if x == a {
 			return i
@@ -200,8 +216,8 @@ func (d *vfcDouble) nodeOfAddr(a string) int {
 }
 
 // holder: the node where the key's data lives (key-level refinement of owner)
-func (d *vfcDouble) holderLocked(k string) int {
-	s := vfcSlot(k)
+func (d *Cluster) holderLocked(k string) int {
+	s := ClusterSlot(k)
 	if dst, ok := d.mig[s]; ok && d.atDst[k] {
 		return dst
 	}
@@ -209,7 +225,7 @@ func (d *vfcDouble) holderLocked(k string) int {
 }
 
 // Log appends a client-side event to the global trace.
-func (d *vfcDouble) Log(ev string) {
+func (d *Cluster) Log(ev string) {
 	d.mu.Lock()
 	d.trace = append(d.trace, ev)
 	d.mu.Unlock()
@@ -217,13 +233,13 @@ func (d *vfcDouble) Log(ev string) {
 
 // Apply a migration event now (between batches) — returns false if it is not
 // applicable in the current state (then nothing happens and nothing is logged).
-func (d *vfcDouble) Apply(ev vfcMigEv) bool {
+func (d *Cluster) Apply(ev MigEv) bool {
 	d.mu.Lock()
 	defer d.mu.Unlock()
 	return d.applyLocked(ev)
 }
 
-func (d *vfcDouble) applyLocked(ev vfcMigEv) bool {
+func (d *Cluster) applyLocked(ev MigEv) bool {
 	switch ev.Kind {
 	case "g":
 		if _, ok := d.mig[ev.Slot]; ok || int(d.owner[ev.Slot]) == ev.Dst || ev.Dst < 0 || ev.Dst >= d.n {
@@ -232,7 +248,7 @@ func (d *vfcDouble) applyLocked(ev vfcMigEv) bool {
 		d.mig[ev.Slot] = ev.Dst
 		d.trace = append(d.trace, fmt.Sprintf("g:%d:%d", ev.Slot, ev.Dst))
 	case "k":
-		s := vfcSlot(ev.Key)
+		s := ClusterSlot(ev.Key)
 		if _, ok := d.mig[s]; !ok || d.atDst[ev.Key] {
 			return false
 		}
@@ -246,7 +262,7 @@ func (d *vfcDouble) applyLocked(ev vfcMigEv) bool {
 		d.owner[ev.Slot] = int16(dst)
 		delete(d.mig, ev.Slot)
 		for k := range d.atDst {
-			if vfcSlot(k) == ev.Slot {
+			if ClusterSlot(k) == ev.Slot {
 				delete(d.atDst, k)
 			}
 		}
@@ -257,6 +273,18 @@ func (d *vfcDouble) applyLocked(ev vfcMigEv) bool {
 		}
 		d.owner[ev.Slot] = int16(ev.Dst)
 		d.trace = append(d.trace, fmt.Sprintf("v:%d:%d", ev.Slot, ev.Dst))
+	case "x": // node Dst goes down: listener and connections closed, slot table unchanged
+		if ev.Dst < 0 || ev.Dst >= d.n || d.down[ev.Dst] {
+			return false
+		}
+		d.down[ev.Dst] = true
+		d.lns[ev.Dst].Close()
+		for c, n := range d.connOf {
+			if n == ev.Dst {
+				c.Close()
+			}
+		}
+		d.trace = append(d.trace, fmt.Sprintf("x:%d", ev.Dst))
 	default:
 		return false
 	}
@@ -265,7 +293,7 @@ func (d *vfcDouble) applyLocked(ev vfcMigEv) bool {
 
 // ---------------------------------------------------------------- RESP
 
-func vfcReadCmd(br *bufio.Reader) ([]string, error) {
+func clusterReadCmd(br *bufio.Reader) ([]string, error) {
 	line, err := br.ReadString('\n')
 	if err != nil {
 		return nil, err
@@ -301,7 +329,7 @@ func vfcReadCmd(br *bufio.Reader) ([]string, error) {
 	return out, nil
 }
 
-func (d *vfcDouble) slotsReplyLocked() string {
+func (d *Cluster) slotsReplyLocked() string {
 	type rng struct{ a, b, n int }
 	var rs []rng
 	start := 0
@@ -321,7 +349,7 @@ func (d *vfcDouble) slotsReplyLocked() string {
 	return sb.String()
 }
 
-func (d *vfcDouble) nodesReplyLocked(me int) string {
+func (d *Cluster) nodesReplyLocked(me int) string {
 	var sb strings.Builder
 	for n := 0; n < d.n; n++ {
 		flags := "master"
@@ -352,15 +380,15 @@ func (d *vfcDouble) nodesReplyLocked(me int) string {
 
 // ---------------------------------------------------------------- per-connection server
 
-type vfcQueued struct {
+type clQueued struct {
 	id   int
 	keys []string
 }
 
-type vfcConnState struct {
+type clConnState struct {
 	asking   bool
 	inMulti  bool
-	queued   []vfcQueued
+	queued   []clQueued
 	dirty    bool
 	decided  bool // outcome of this transaction attempt already logged
 	txnAsk   bool
@@ -369,14 +397,20 @@ type vfcConnState struct {
 
 // keysOf extracts (keys, id) of a data command. Commands used by the harness:
 //   set/append/lpush/sadd k #id | hset k f #id | smove src dst #id
-func vfcKeysOf(args []string) ([]string, int) {
+func clusterKeysOf(args []string) ([]string, int) {
 	id := -1
 	last := args[len(args)-1]
 	if strings.HasPrefix(last, "#") {
 		id, _ = strconv.Atoi(last[1:])
 	}
+	if len(args) < 2 {
+		return []string{""}, id
+	}
 	switch strings.ToLower(args[0]) {
 	case "smove":
+		if len(args) < 3 {
+			return []string{args[1]}, id
+		}
 		return []string{args[1], args[2]}, id
 	default:
 		return []string{args[1]}, id
@@ -385,10 +419,10 @@ func vfcKeysOf(args []string) ([]string, int) {
 
 // decide what this node answers for a command on `keys` (mutex held)
 // returns out token ("x", "m<d>", "a<d>", "e") and the error reply ("" when served)
-func (d *vfcDouble) decideLocked(node int, keys []string, asking bool) (string, string) {
-	slot := vfcSlot(keys[0])
+func (d *Cluster) decideLocked(node int, keys []string, asking bool) (string, string) {
+	slot := ClusterSlot(keys[0])
 	for _, k := range keys[1:] {
-		if vfcSlot(k) != slot {
+		if ClusterSlot(k) != slot {
 			return "e", "-CROSSSLOT Keys in request don't hash to the same slot\r\n"
 		}
 	}
@@ -418,7 +452,7 @@ func (d *vfcDouble) decideLocked(node int, keys []string, asking bool) (string, 
 	return fmt.Sprintf("m%d", own), fmt.Sprintf("-MOVED %d %s\r\n", slot, d.addrs[own])
 }
 
-func (d *vfcDouble) fireSchedLocked() {
+func (d *Cluster) fireSchedLocked() {
 	for len(d.sched) > 0 && d.sched[0].At <= d.reqCount {
 		d.applyLocked(d.sched[0].Ev)
 		d.sched = d.sched[1:]
@@ -426,7 +460,7 @@ func (d *vfcDouble) fireSchedLocked() {
 	d.reqCount++
 }
 
-func (d *vfcDouble) recordExecLocked(node int, id int, keys []string, txn int, asking bool) {
+func (d *Cluster) recordExecLocked(node int, id int, keys []string, txn int, asking bool) {
 	h := make([]int, len(keys))
 	for i, k := range keys {
 		h[i] = d.holderLocked(k)
@@ -434,25 +468,25 @@ func (d *vfcDouble) recordExecLocked(node int, id int, keys []string, txn int, a
 		// transferred would create the key in two places; holder stays the
 		// owner then and the monitor reports it.
 	}
-	d.execs = append(d.execs, vfcExec{Node: node, ID: id, Keys: keys, Txn: txn, Asking: asking, Holder: h, Seg: d.seg})
+	d.execs = append(d.execs, ClusterExec{Node: node, ID: id, Keys: keys, Txn: txn, Asking: asking, Holder: h, Seg: d.seg})
 }
 
-func b2i(b bool) int {
+func clB2i(b bool) int {
 	if b {
 		return 1
 	}
 	return 0
 }
 
-func (d *vfcDouble) serve(node int, c net.Conn) {
+func (d *Cluster) serve(node int, c net.Conn) {
 	br := bufio.NewReader(c)
 	bw := bufio.NewWriter(c)
-	st := &vfcConnState{}
+	st := &clConnState{}
 	abandonTxn := func() {
 		// connection ended inside MULTI: nothing of it executes
 		d.mu.Lock()
 		if st.inMulti && !st.decided && len(st.queued) > 0 {
-			d.trace = append(d.trace, fmt.Sprintf("t:%d:%d:%d:e", node, st.queued[0].id, b2i(st.txnAsk)))
+			d.trace = append(d.trace, fmt.Sprintf("t:%d:%d:%d:e", node, st.queued[0].id, clB2i(st.txnAsk)))
 			d.nodeLog[node] = append(d.nodeLog[node], fmt.Sprintf("T%d:e", st.queued[0].id))
 			for _, q := range st.queued {
 				d.seen[q.id] = true
@@ -462,7 +496,7 @@ func (d *vfcDouble) serve(node int, c net.Conn) {
 	}
 	defer abandonTxn()
 	for {
-		args, err := vfcReadCmd(br)
+		args, err := clusterReadCmd(br)
 		if err != nil {
 			return
 		}
@@ -481,7 +515,7 @@ func (d *vfcDouble) serve(node int, c net.Conn) {
 	}
 }
 
-func (d *vfcDouble) handle(node int, st *vfcConnState, args []string) string {
+func (d *Cluster) handle(node int, st *clConnState, args []string) string {
 	cmd := strings.ToLower(args[0])
 	switch cmd {
 	case "cluster":
@@ -492,7 +526,10 @@ func (d *vfcDouble) handle(node int, st *vfcConnState, args []string) string {
 		switch sub {
 		case "slots":
 			d.mu.Lock()
-			if d.parkOn && d.parked == nil && !d.closed {
+			if d.parkOn && d.parkSkip > 0 {
+				d.parkSkip--
+				d.trace = append(d.trace, "S")
+			} else if d.parkOn && d.parked == nil && !d.closed {
 				ch := make(chan struct{})
 				d.parked = ch
 				d.mu.Unlock()
@@ -543,6 +580,7 @@ func (d *vfcDouble) handle(node int, st *vfcConnState, args []string) string {
 		tid := st.queued[0].id
 		for _, q := range st.queued {
 			d.seen[q.id] = true
+			d.arrivals[q.id]++
 		}
 		if st.dirty {
 			return "-EXECABORT Transaction discarded because of previous errors.\r\n"
@@ -562,12 +600,12 @@ func (d *vfcDouble) handle(node int, st *vfcConnState, args []string) string {
 			}
 		}
 		if out, errReply := d.decideLocked(node, all, st.asking); out != "x" {
-			d.trace = append(d.trace, fmt.Sprintf("t:%d:%d:%d:%s", node, tid, b2i(st.txnAsk), out))
+			d.trace = append(d.trace, fmt.Sprintf("t:%d:%d:%d:%s", node, tid, clB2i(st.txnAsk), out))
 			d.nodeLog[node] = append(d.nodeLog[node], fmt.Sprintf("T%d:%s", tid, out))
 			st.decided = true
 			return errReply
 		}
-		d.trace = append(d.trace, fmt.Sprintf("t:%d:%d:%d:x", node, tid, b2i(st.txnAsk)))
+		d.trace = append(d.trace, fmt.Sprintf("t:%d:%d:%d:x", node, tid, clB2i(st.txnAsk)))
 		d.nodeLog[node] = append(d.nodeLog[node], fmt.Sprintf("T%d:x", tid))
 		st.decided = true
 		var sb strings.Builder
@@ -578,11 +616,11 @@ func (d *vfcDouble) handle(node int, st *vfcConnState, args []string) string {
 		}
 		return sb.String()
 	case "set", "append", "lpush", "sadd", "hset", "smove":
-		keys, id := vfcKeysOf(args)
+		keys, id := clusterKeysOf(args)
 		d.mu.Lock()
 		defer d.mu.Unlock()
 		if st.inMulti {
-			st.queued = append(st.queued, vfcQueued{id, keys})
+			st.queued = append(st.queued, clQueued{id, keys})
 			if st.dirty {
 				return "+QUEUED\r\n" // Redis still answers per command; keep it simple: already dirty
 			}
@@ -592,7 +630,7 @@ func (d *vfcDouble) handle(node int, st *vfcConnState, args []string) string {
 				if !st.decided {
 					st.decided = true
 					tid := st.queued[0].id
-					d.trace = append(d.trace, fmt.Sprintf("t:%d:%d:%d:%s", node, tid, b2i(st.txnAsk), out))
+					d.trace = append(d.trace, fmt.Sprintf("t:%d:%d:%d:%s", node, tid, clB2i(st.txnAsk), out))
 					d.nodeLog[node] = append(d.nodeLog[node], fmt.Sprintf("T%d:%s", tid, out))
 				}
 				return errReply
@@ -603,9 +641,10 @@ func (d *vfcDouble) handle(node int, st *vfcConnState, args []string) string {
 		asking := st.asking
 		st.asking = false
 		out, errReply := d.decideLocked(node, keys, asking)
-		d.trace = append(d.trace, fmt.Sprintf("q:%d:%d:%d:%s", node, id, b2i(asking), out))
+		d.trace = append(d.trace, fmt.Sprintf("q:%d:%d:%d:%s", node, id, clB2i(asking), out))
 		d.nodeLog[node] = append(d.nodeLog[node], fmt.Sprintf("%d:%s", id, out))
 		d.seen[id] = true
+		d.arrivals[id]++
 		if out == "x" {
 			d.recordExecLocked(node, id, keys, -1, asking)
 			return "+OK\r\n"
@@ -618,7 +657,7 @@ func (d *vfcDouble) handle(node int, st *vfcConnState, args []string) string {
 
 // ---------------------------------------------------------------- refresh gate
 
-func (d *vfcDouble) waitParked(timeout time.Duration) bool {
+func (d *Cluster) WaitParked(timeout time.Duration) bool {
 	dl := time.Now().Add(timeout)
 	for time.Now().Before(dl) {
 		d.mu.Lock()
@@ -632,7 +671,7 @@ func (d *vfcDouble) waitParked(timeout time.Duration) bool {
 	return false
 }
 
-func (d *vfcDouble) releaseParked() bool {
+func (d *Cluster) ReleaseParked() bool {
 	d.mu.Lock()
 	defer d.mu.Unlock()
 	if d.parked == nil {
@@ -644,7 +683,7 @@ func (d *vfcDouble) releaseParked() bool {
 }
 
 // waitSeen waits until every id has been processed by some node.
-func (d *vfcDouble) waitSeen(ids []int, timeout time.Duration) bool {
+func (d *Cluster) WaitSeen(ids []int, timeout time.Duration) bool {
 	dl := time.Now().Add(timeout)
 	for {
 		d.mu.Lock()
@@ -664,4 +703,93 @@ func (d *vfcDouble) waitSeen(ids []int, timeout time.Duration) bool {
 		}
 		time.Sleep(50 * time.Microsecond)
 	}
+}
+
+// ---------------------------------------------------------------- exported accessors
+
+func (d *Cluster) Addrs() []string { return append([]string(nil), d.addrs...) }
+func (d *Cluster) N() int          { return d.n }
+
+// SetBaseLayout assigns the 16384 slots in equal ranges to the first m nodes.
+func (d *Cluster) SetBaseLayout(m int) {
+	d.mu.Lock()
+	for s := 0; s < 16384; s++ {
+		d.owner[s] = int16(s * m / 16384)
+	}
+	d.mu.Unlock()
+}
+
+func (d *Cluster) OwnerOf(slot int) int {
+	d.mu.Lock()
+	defer d.mu.Unlock()
+	return int(d.owner[slot])
+}
+
+// EnablePark: park CLUSTER SLOTS requests (one at a time) after serving `skip`
+// of them normally.
+func (d *Cluster) EnablePark(skip int) {
+	d.mu.Lock()
+	d.parkOn, d.parkSkip = true, skip
+	d.mu.Unlock()
+}
+
+func (d *Cluster) ResetTrace() {
+	d.mu.Lock()
+	d.trace = nil
+	d.mu.Unlock()
+}
+
+func (d *Cluster) SetSchedule(sc []Sched) {
+	d.mu.Lock()
+	d.sched = append([]Sched(nil), sc...)
+	d.mu.Unlock()
+}
+
+func (d *Cluster) Seg() int {
+	d.mu.Lock()
+	defer d.mu.Unlock()
+	return d.seg
+}
+
+// NextSegment: the sender retries after a failed batch.
+func (d *Cluster) NextSegment() {
+	d.mu.Lock()
+	d.seg++
+	d.trace = append(d.trace, "X")
+	d.mu.Unlock()
+}
+
+// Unseen returns the ids no node has processed yet.
+func (d *Cluster) Unseen(ids []int) []int {
+	d.mu.Lock()
+	defer d.mu.Unlock()
+	var out []int
+	for _, id := range ids {
+		if !d.seen[id] {
+			out = append(out, id)
+		}
+	}
+	return out
+}
+
+func (d *Cluster) Arrivals() map[int]int {
+	d.mu.Lock()
+	defer d.mu.Unlock()
+	out := map[int]int{}
+	for k, v := range d.arrivals {
+		out[k] = v
+	}
+	return out
+}
+
+// Snapshot copies the trace, the execution log and the per-node request logs.
+func (d *Cluster) Snapshot() (trace []string, execs []ClusterExec, nodeLog [][]string) {
+	d.mu.Lock()
+	defer d.mu.Unlock()
+	trace = append([]string(nil), d.trace...)
+	execs = append([]ClusterExec(nil), d.execs...)
+	for _, l := range d.nodeLog {
+		nodeLog = append(nodeLog, append([]string(nil), l...))
+	}
+	return
 }
